@@ -42,6 +42,13 @@ ALLOW = {
     "toupper": "reads the global locale only (no write)", "tolower": "reads the global locale only (no write)",
     "deflateInit2_": "zlib: state in the caller's z_stream", "deflate": "zlib: state in the caller's z_stream",
     "deflateEnd": "zlib: state in the caller's z_stream",
+    "deflateReset": "zlib: state in the caller's z_stream", "deflateResetKeep": "zlib: state in the caller's z_stream",
+    "deflateInit_": "zlib: state in the caller's z_stream", "deflateParams": "zlib: state in the caller's z_stream",
+    "deflateBound": "zlib: reads the caller's z_stream", "deflatePending": "zlib: reads the caller's z_stream",
+    "deflateSetHeader": "zlib: state in the caller's z_stream", "deflateSetDictionary": "zlib: state in the caller's z_stream",
+    "crc32": "zlib: pure function of its arguments", "adler32": "zlib: pure function of its arguments",
+    "lzma_stream_encoder": "liblzma: state in the caller's lzma_stream", "lzma_alone_encoder": "liblzma: state in the caller's lzma_stream",
+    "lzma_lzma_preset": "liblzma: fills the caller's options structure",
     "lzma_easy_encoder": "liblzma: state in the caller's lzma_stream", "lzma_code": "liblzma: state in the caller's lzma_stream",
     "lzma_end": "liblzma: state in the caller's lzma_stream",
     "_mm_crc32_u8": "SSE4.2 intrinsic, pure", "_mm_crc32_u16": "SSE4.2 intrinsic, pure", "_mm_crc32_u32": "SSE4.2 intrinsic, pure",
